@@ -80,7 +80,10 @@ impl Vm {
     ) -> ParseResult<Box<ParserState<'a, &'a str>>> {
         if let Some(ref listener) = self.listener {
             if listener(rule.to_owned(), state.position()) {
-                return Err(ParserState::new(state.position().line_of()));
+                // The parse is abandoned: fail this rule on the state as it is. (Handing back a
+                // fresh state here made the enclosing `rule` index into a queue it never filled
+                // whenever an optional or a repetition absorbed the failure.)
+                return Err(state);
             }
         }
         // A grammar may define rules named like the non-keyword built-ins (ASCII_*, NEWLINE); such a
